@@ -28,6 +28,7 @@ import (
 
 	"rcproxy/core/pkg/logging"
 	"rcproxy/core/pkg/redis"
+	"rcproxy/core/vhook"
 )
 
 const (
@@ -143,8 +144,11 @@ func (c *ClusterNodes) updateClusterNodes(msg string) error {
 	}
 
 	if c.isChanged(allNodes) {
+		vhook.Point("cluster.beforeSetServer")
 		c.setServer(allNodes)
+		vhook.Point("cluster.beforeSetReplicaset")
 		c.setReplicaset(allNodes)
+		vhook.Point("cluster.beforeServerChanged")
 		c.serverChanged = true
 	}
 
@@ -181,6 +185,7 @@ func (c *ClusterNodes) setServer(allNodes []*ClusterNode) {
 	for kv := range c.ServerMap.Iter() {
 		c.ServerMap.Del(kv.Key)
 	}
+	vhook.Point("cluster.setServerMid")
 	for _, m := range allNodes {
 		c.ServerMap.Insert(m.Addr, m)
 	}
